@@ -17,7 +17,7 @@ import numpy as np
 from symx import api as S
 
 PROPERTY = "C04"
-OPTIONS = dict(validate=8, query_timeout_ms=30000, path_wall_s=900, max_paths=600, vacuity_timeout_ms=4000)
+OPTIONS = dict(validate=8, query_timeout_ms=30000, path_wall_s=900, max_paths=600, vacuity_timeout_ms=4000, warmup="first")
 STUBS = [
     "inner linear solves: exact (fresh vector x with A x = b for the matrix the real code assembled); the k-th solve raises for the fault runs",
     "_compute_face_weight: on (3,)/(2,) grids arbitrary positive weights, fresh per call (sound over-approximation of the five mobility modes); on the other grids fixed distinct positive rationals that change from call to call (keeps every system linear)",
